@@ -16,8 +16,8 @@ RATES = [0.0, 0.25, 0.34, 0.5, 0.67]
 
 def _scope(tier):
     if tier == "thorough":
-        return dict(alpha="ACG", lens=(3, 4, 5), nmax=7, triple_len=(3, 4), triple_second="ACG", rates=RATES + [0.75],
-                    triple_rates=RATES, triple_nmax=6)
+        return dict(alpha="ACG", lens=(3, 4), nmax=7, triple_len=(3,), triple_second="ACG", rates=RATES + [0.75],
+                    triple_rates=RATES, triple_nmax=6, triple4_alpha="AC")
     return dict(alpha="ACG", lens=(3, 4), nmax=6, triple_len=(3,), triple_second="ACG", rates=[0.0, 0.25, 0.34, 0.5],
                 triple_rates=[0.34, 0.5], triple_nmax=5)
 
@@ -34,6 +34,10 @@ def shards(tier):
     for a in [x for x in t_ad if alignsweep.canonical(x) == x]:
         for prefix in (True, False):
             out.append(dict(kind="triples", first=a, prefix=prefix, tier=tier))
+    if sc.get("triple4_alpha"):
+        for a in [x for x in alignsweep.strings(sc["triple4_alpha"], 4, 4) if alignsweep.canonical(x) == x]:
+            for prefix in (True, False):
+                out.append(dict(kind="triples4", first=a, prefix=prefix, tier=tier))
     return out
 
 
@@ -105,6 +109,9 @@ def run_shard(d):
     if d["kind"] == "pairs":
         pool = [a for L in sc["lens"] for a in alignsweep.strings(sc["alpha"], L, L)]
         sets = [(first, b) for b in pool if b != first]
+    elif d["kind"] == "triples4":
+        pool = list(alignsweep.strings(sc["triple4_alpha"], 4, 4))
+        sets = [(first, b, c) for b in pool for c in pool if len({first, b, c}) == 3]
     else:
         pool = [a for L in sc["triple_len"] for a in alignsweep.strings(sc["triple_second"], L, L)]
         pool = [a for a in pool if len(a) == len(first)]
@@ -193,7 +200,7 @@ def run(tier):
         for s in r["samples"]:
             R.sample(s)
         for sig, what, case in r["viol"]:
-            R.violation(f"{d['kind']}:{sig}:{'5p' if d['prefix'] else '3p'}", what, case)
+            R.violation(f"{d['kind'].rstrip('4')}:{sig}:{'5p' if d['prefix'] else '3p'}", what, case)
     R.counters = tot
     R.assumptions = ["letter symmetry: the first adapter of every set is in canonical form, the others are arbitrary",
                      "distance tables from the C reference (cross-checked against the Python twin in C01)"]
